@@ -12,7 +12,7 @@ Open Scope string_scope.
 Definition acodes_eqb (a b : list acode) : bool := String.eqb (show (L (map s_acode a))) (show (L (map s_acode b))).
 
 Definition a64_runner (cs : list acode) : runner :=
-  fun args tr => let '(ob, _, st) := run_a64_heap_tr isa_outer isa_inner cs args tr in (ob, st).
+  fun args tr => let '(ob, s, st) := run_a64_heap_tr isa_outer isa_inner cs args tr in (ob, st, hw s).
 
 Definition heap_a64_case (i r : sexp) : verdict :=
   match i with
